@@ -552,6 +552,12 @@ end Spec
 
 /-! ## The guard `Strict` -/
 
+/-- The array's upper bound is below `i64::MAX`. -/
+def arrHiOK (Γ : Ctx) (a : String) : Bool :=
+  match Γ.aggs.lookup a with
+  | some (.arr _ hi _) => decide (hi < 9223372036854775807)
+  | _ => false
+
 /-- NoDrift for expressions: wherever an untyped literal is an operand of an arithmetic
 operator, the other operand's kind ranks at least DINT (so that the dynamically chosen
 `wider_numeric` kind is the static result type), there is no `**`, and every untyped literal
@@ -574,9 +580,10 @@ def noDriftE (Γ : Ctx) : Expr → Bool
           | some _, _ => false
           | none, _ => true)
       else true)
-  | .idx _ i =>
-    -- a ULINT subscript is cast with `as i64` (`index_to_i64`): excluded like the ULINT FOR bounds
-    noDriftE Γ i && Spec.infer Γ i != some (.int .ulint)
+  | .idx a i =>
+    -- a ULINT subscript above `i64::MAX` saturates to `i64::MAX` (`index_to_i64`, c336de3): out of
+    -- bounds like in the reference unless the array's upper bound is `i64::MAX` itself
+    noDriftE Γ i && (Spec.infer Γ i != some (.int .ulint) || arrHiOK Γ a)
   | .fld _ _ => true
 
 /-- Strict assignment: exactly the declared type (no widening: the narrower tag would be stored),
